@@ -443,7 +443,11 @@ def shrink_and_name(ck, binary, nproc, tier, confirmed):
         feats = primary or feats
         if meta.get('cross_typed_keyref') and any(x[0] == 'keyref-not-found' for x in (v or [])):
             feats = feats + ['cross-typed-keyref']
-        if insts[i][1] == 'nested-groups' and meta['scope'] != 'db' and not any(f.startswith('nested-scopes-') for f in feats):
+        if insts[i][1] == 'nested-groups' and any(re.search(r'\.//[^|]*:?grp/', sel) for _k, sel in meta['selectors']) and not any(f.startswith('nested-scopes-') for f in feats):
+            # selector ".//grp/item" in a document where grp occurs inside grp: XercesXPath's matcher does not restart after
+            # the partial match db/grp/(grp) and misses grp/grp/item (known finding KF-C10-06)
+            feats = feats + ['descendant-then-child-step-over-self-nested-element']
+        elif insts[i][1] == 'nested-groups' and meta['scope'] != 'db' and not any(f.startswith('nested-scopes-') for f in feats):
             # a constraint whose scope element (grp) occurs inside another instance of itself: the value stores of one
             # constraint are kept per depth and re-used (known findings KF-C10-03/04), every verdict in such a document is
             # unreliable -- the key says so, so that the same disagreement in a flat document keeps its own key
